@@ -44,7 +44,9 @@ FULL = ["rgb(", "color(", "#", ",", ")", "1", "256", "\u00b2", "\u0663", "ff", "
 SUB = {
     "style": ["rgb(", "color(", "#", ",", ")", "1", "256", "\u00b2", "ff", "on", "not", "link", "bold", " "],
     "ansi": ["\x1b", "[", "]", ";", "m", "1", "256", "\u00b2", "\u0663", "ff", "\\", " "],
-    "print_quick": ["[", "]", "/", "rgb(", ",", ")", "1", "\\"],
+    "print_quick": ["[", "]", "/", "rgb(", ",", ")", "\\"],
+    "color": ["rgb(", "color(", "#", ",", ")", "1", "256", "\u00b2", "\u0663", "ff", " ", "m"],
+    "markup": ["[", "]", "/", "\\", "=", "rgb(", ",", ")", "1", "bold", "not", " ", "link", "#"],
     "print": ["[", "]", "/", "rgb(", ",", ")", "1", "\\", "=", "bold"],
 }
 STRUCTURAL = set("()#,[]/\\\x1b;=")
@@ -65,9 +67,11 @@ GROUPS = {
 # plan[tier] = list of (group, alphabet name, min length, max length)
 PLAN = {
     "quick": [
-        ("color", "full", 0, 5),
-        ("render", "full", 0, 5),
-        ("text", "full", 0, 5),
+        ("color", "full", 0, 4),
+        ("color", "color", 5, 6),
+        ("render", "full", 0, 4),
+        ("render", "markup", 5, 5),
+        ("text", "full", 0, 4),
         ("style", "full", 0, 4),
         ("style", "style", 5, 5),
         ("ansi", "full", 0, 4),
@@ -87,7 +91,8 @@ PLAN = {
         ("ansi", "ansi", 6, 7),
         ("print", "full", 0, 4),
         ("terminal", "full", 0, 3),
-        ("print", "print", 5, 6),
+        ("print", "print", 5, 5),
+        ("print_on", "print", 6, 6),
         ("terminal", "print", 4, 5),
     ],
 }
